@@ -193,6 +193,8 @@ W.contract(Contract('CFG.substitute', [('self', CFGT), ('substitution', SubstT)]
                                 lambda e: And(e.body.term == SigSeq(e.new_variables_d.term, e.final_replacement.term, body(e.production.term)), NoEps(e.body.term)))},
     loops={'0': inv0, '1': inv1, '1.0': inv10, '1.1': inv11, '1.1.0': inv110, '2': inv2, '2.0': inv20}))
 
+W.contract(Contract('CFG.is_empty', [('self', CFGT)], ret=TBool))          # no postcondition needed here: lets an edit that tests emptiness stay inside the subset
+
 # ------------------------------------------------------------------ union, concatenate, get_closure, get_positive_closure
 # Each is proved to be `template.substitute({placeholder: operand, ...})` for the template grammar written below: the postcondition says that
 # there are a template T of exactly that shape and renamings (R0, G, FR) such that the postcondition of substitute holds for T and the operands.
@@ -212,7 +214,7 @@ EMPTY = Empty(SeqOb.sort())
 def template_is(T, start, variables, terminals, prods):
     return And(T.S == start, ForAll([x], T.V[x] == Or([x == v for v in variables])), ForAll([x], T.Tm[x] == Or([x == t for t in terminals])),
                ForAll([pr], T.P[pr] == Or([pr == mkprod(h, seq_of(b)) for h, b in prods])))
-def op_contract(name, params, template, subst):
+def op_contract(name, params, template, subst, alias=None):
     """template(o) -> (start, variables, terminals, productions); subst(o) -> [(placeholder, operand)]"""
     def post(o, r, n, g):
         st_, vs_, ts_, ps_ = template()
@@ -224,14 +226,19 @@ def op_contract(name, params, template, subst):
                                 for i, (h_, b_) in enumerate(template()[3])],
         ghosts={'T': CFGT, 'R0': MapOO, 'G': MapOM, 'FR': MapOO},
         ghost_witness=lambda o, e: {'T': e.cfg_temp, 'R0': e.get('$ghost.substitute.R0'), 'G': e.get('$ghost.substitute.G'), 'FR': e.get('$ghost.substitute.FR')}))
+    if alias:          # the operator form: a one-line delegation with the same postcondition (ghosts handed through)
+        m = name.split('.')[-1]
+        W.contract(Contract(alias, params, ret=CFGT, fresh_result=True, requires=lambda o: And([C.WF(o.get(p)) for p, _ in params]), ensures=post,
+            ghosts={'T': CFGT, 'R0': MapOO, 'G': MapOM, 'FR': MapOO},
+            ghost_witness=lambda o, e: {k: e.get(f'$ghost.{m}.{k}') for k in ('T', 'R0', 'G', 'FR')}))
 V_, T_ = (lambda s_: named('Variable', s_)), (lambda s_: named('Terminal', s_))
 op_contract('CFG.union', [('self', CFGT), ('other', CFGT)],
             lambda: (V_('#STARTUNION#'), [V_('#STARTUNION#')], [T_('#0UNION#'), T_('#1UNION#')],
                      [(V_('#STARTUNION#'), [T_('#0UNION#')]), (V_('#STARTUNION#'), [T_('#1UNION#')])]),
-            lambda o: [(T_('#0UNION#'), o.self), (T_('#1UNION#'), o.other)])
+            lambda o: [(T_('#0UNION#'), o.self), (T_('#1UNION#'), o.other)], alias='CFG.__or__')
 op_contract('CFG.concatenate', [('self', CFGT), ('other', CFGT)],
             lambda: (V_('#STARTCONC#'), [V_('#STARTCONC#')], [T_('#0CONC#'), T_('#1CONC#')], [(V_('#STARTCONC#'), [T_('#0CONC#'), T_('#1CONC#')])]),
-            lambda o: [(T_('#0CONC#'), o.self), (T_('#1CONC#'), o.other)])
+            lambda o: [(T_('#0CONC#'), o.self), (T_('#1CONC#'), o.other)], alias='CFG.__add__')
 op_contract('CFG.get_closure', [('self', CFGT)],
             lambda: (V_('#STARTCLOS#'), [V_('#STARTCLOS#')], [T_('#1CLOS#')],
                      [(V_('#STARTCLOS#'), [T_('#1CLOS#')]), (V_('#STARTCLOS#'), [V_('#STARTCLOS#'), V_('#STARTCLOS#')]), (V_('#STARTCLOS#'), [])]),
@@ -245,7 +252,7 @@ op_contract('CFG.get_positive_closure', [('self', CFGT)],
 W.ground_sorts = (Ob.sort(),)
 W.special = {}
 _P = 'pyformlang/cfg/cfg.py'
-TARGETS = {k: (_P, k) for k in ('CFG.substitute', 'CFG.union', 'CFG.concatenate', 'CFG.get_closure', 'CFG.get_positive_closure')}
+TARGETS = {k: (_P, k) for k in ('CFG.substitute', 'CFG.union', 'CFG.concatenate', 'CFG.get_closure', 'CFG.get_positive_closure', 'CFG.__or__', 'CFG.__add__')}
 SMOKE = [
     ('CFG.substitute', _P, "                new_variables_d_local[variable] = temp\n                new_vars.add(temp)\n                idx += 1", "                new_variables_d_local[variable] = temp\n                new_vars.add(temp)", 'break'),
     ('CFG.substitute', _P, "                elif cfgobj in final_replacement:\n                    body.append(final_replacement[cfgobj])", "                elif cfgobj in final_replacement:\n                    body.append(cfgobj)", 'break'),
